@@ -1,5 +1,6 @@
 """C27 typed resource values are formatted with Android's meaning (format_value, complexToFloat, get_resource_dimen/color,
 ARSCResStringPoolRef.format_value)."""
+import re
 import io
 import math
 import struct
@@ -53,7 +54,7 @@ def expected_ok(t, data, got):
         return None if close(g, f) else "float-value"
     if t == T_HEX:
         try:
-            return None if got.lower().startswith("0x") and int(got, 16) == data else "hex-value"
+            return None if re.fullmatch(r"0[xX][0-9A-Fa-f]+", got) and int(got, 16) == data else "hex-value"
         except ValueError:
             return "hex-value"
     if t == T_BOOL:
@@ -61,12 +62,13 @@ def expected_ok(t, data, got):
     if t == T_DEC:
         want = data - (1 << 32) if data & 0x80000000 else data
         try:
-            return None if int(got) == want else "int-dec-sign"
+            return None if re.fullmatch(r"-?[0-9]+", got) and int(got) == want else "int-dec-sign"
         except ValueError:
             return "int-dec-sign"
     if t in (T_ARGB8, T_RGB8, T_ARGB4, T_RGB4):
         try:
-            return None if got.startswith("#") and int(got[1:], 16) == data and len(got) == 9 else "colour-value"
+            # exactly '#' + 8 hex digits (int() would also accept blanks and signs)
+            return None if re.fullmatch(r"#[0-9A-Fa-f]{8}", got) and int(got[1:], 16) == data else "colour-value"
         except ValueError:
             return "colour-value"
     if t == T_DIM:
